@@ -1,6 +1,7 @@
 package main
 
 import (
+	"strconv"
 	"strings"
 )
 
@@ -170,6 +171,26 @@ func genC01(tier string, seed uint64, emit func(string)) {
 		// 3. purely valid claims-sets (all optional-claim subsets arise at random)
 		for i := 0; i < n/6; i++ {
 			emit("C01 " + validClaims(kind, r).String())
+		}
+		// 4. the verdict depends on the claims-set as it is NOW: a fully populated claims-set whose stored
+		// component is then changed (made malformed, or replaced by another well-formed one) through the
+		// pointer the caller retained; Validate() and all getters are observed after every step
+		init := []string{"new1", "new2"}[kind-1]
+		for i := 0; i < n/40; i++ {
+			var seq []string
+			for _, nm := range setterNames {
+				seq = append(seq, validOp(kind, nm, r))
+			}
+			ss := seq[len(seq)-1]
+			if !strings.HasPrefix(ss, "ss:[") || !isValidSS(ss) || strings.Contains(ss[4:], "_,_,_") {
+				continue
+			}
+			cnt := strings.Count(ss, ";") + 1
+			for k := 0; k < 1+r.intn(3); k++ {
+				newc := []string{validSwcTok(r), "_," + rep(31, 1) + ",_," + rep(32, 2) + ",_", "_,_,_," + rep(32, 2) + ",_", validSwcTok(r)}[r.intn(4)]
+				seq = append(seq, "mc:"+strconv.Itoa(r.intn(cnt))+":"+newc)
+			}
+			emit("HIST " + init + " " + strings.Join(seq, " "))
 		}
 	}
 }
